@@ -84,6 +84,7 @@ class Summary:
     ctx: Optional[ClassInfo]
     mutates: Dict[str, List[Site]] = field(default_factory=dict)
     attr_mut: Dict[str, List[Site]] = field(default_factory=dict)
+    ret_mut: Dict[str, List[Site]] = field(default_factory=dict)      # results of in-package calls that are mutated here
     stores: Dict[str, Set[str]] = field(default_factory=dict)
     returns: Set[str] = field(default_factory=set)
     passes: List[Tuple[object, str, FrozenSet[str], str]] = field(default_factory=list)  # (callee FuncInfo, param, tags, loc)
@@ -183,6 +184,8 @@ class AliasFlow(Flow):
                 self.sum.mutates.setdefault(t[2:], []).append(self._site(node, kind))
             elif t.startswith("A:"):
                 self.sum.attr_mut.setdefault(t[2:], []).append(self._site(node, kind))
+            elif t.startswith("R:"):
+                self.sum.ret_mut.setdefault(t[2:], []).append(self._site(node, kind))
 
     def _scan_calls(self, e: ast.AST, env: Env):
         for n in ast.walk(e):
